@@ -45,11 +45,21 @@ RULE = (
     "cancels / reschedules / reschedules+cancels its timer; an async listener that suspends 1-3 loop iterations or "
     "5 ms and then does the same; an async listener that is suspended while another callback does it (0-1 iterations "
     "or 2 ms after the listener started), i.e. while the emission of the event - and search() - has not returned. "
+    "Step kind 'relogin': the session is lost and regained while requests of every kind are live - the scripted "
+    "server resets / closes its side of the server connection (RST, FIN, or both directions reset), the harness waits "
+    "until the client reports no session, optionally stays 0.5-2 s without one, then connect_server() + login() "
+    "(reconnect.auto off, as the library's own reconnect does); the server announces the wishlist interval again "
+    "after the logon once it was scripted; at least one more search follows (searches that fail while there is no "
+    "connection are counted, not judged). A few cases make their searches through the command API "
+    "(client.execute(GlobalSearchCommand / RoomSearchCommand / UserSearchCommand)), alone or mixed with the manager's "
+    "methods; these emit no SearchRequestSentEvent, the harness records the creation when the command returns. "
     "Every other step is anchored at an absolute virtual offset, at "
     "creation+dt or at deadline+dt of a scripted request; dt=0 anchors run k=0..4 loop iterations after the "
     "loop.call_at(deadline) handle (k=0 runs before the library's timer callback, k>=2 after it). The first 284 cases "
-    "enumerate every single follow-up operation x search type x position around the deadline (0..242) and every "
-    "reaction to the sent event x search type incl. wishlist (243..283), shortest witnesses first; the rest are drawn from random.Random(f'{seed}:C18:{idx}') with non-decreasing length 2..10. Reference "
+    "enumerate every single follow-up operation x search type x position around the deadline (0..242), every "
+    "reaction to the sent event x search type incl. wishlist (243..283), search / session lost and regained / search "
+    "/ late reply for every pair of search types and way of losing the link (284..304) and the command API "
+    "(305..308), shortest witnesses first; the rest are drawn from random.Random(f'{seed}:C18:{idx}') with non-decreasing length 2..10. Reference "
     "model = fold over the ordered log: live set by request identity from SearchRequestSentEvent, manual removal and "
     "validated SearchRequestRemovedEvent; per request the list of armed deadlines (start / reschedule) with how each "
     "ended (cancel / re-arm / fired). Rules: R1 result event only for a live request and result.ticket == "
@@ -94,16 +104,25 @@ ASSUMPTIONS = [
     "The statement does not say whether a timeout counts from the announcement of the request "
     "(SearchRequestSentEvent) or from the moment all listeners of that event have returned: when a scripted listener "
     "takes virtual time (5 ms) every removal instant in [sent+timeout, listener-done+timeout] is accepted.",
+    "A request made through the command API has no timeout in the library; whether it should have one is not stated: "
+    "no removal is demanded for it (a removal event for it would be judged like one for timeout 0). When two requests "
+    "made through DIFFERENT APIs share a ticket while both are live, only that collision is reported "
+    "(duplicate-live-ticket:mixed-apis) and the rest of the case is not judged (the registry is corrupt from there on). "
+    "remove_request removes by ticket number: when the application removes an already dead request whose ticket is "
+    "meanwhile held by another live request, that request counts as removed by the user (accepted reading, counted as "
+    "removed_through_reused_ticket; only reachable when tickets are re-used).",
     "asyncio's scheduling is unchanged (FIFO ready queue, CPython task stepping); CPython reference counting reports "
     "never-retrieved task exceptions at once, gc.collect() before the end of the judged window catches the rest.",
 ]
 MIN_OBS = {
     'quick': {'sequences': 950, 'requests_created': 1800, 'results_judged': 1000, 'removals_judged': 1200,
               'same_instant_races': 800, 'timer_ops': 500, 'wishlist_rounds': 400, 'timeout0_judged': 150,
-              'sent_reactions': 250},
+              'sent_reactions': 250, 'relogins': 150, 'requests_live_across_relogin': 200,
+              'requests_created_after_relogin': 300, 'command_api_requests': 40},
     'thorough': {'sequences': 39000, 'requests_created': 75000, 'results_judged': 50000, 'removals_judged': 55000,
                  'same_instant_races': 45000, 'timer_ops': 25000, 'wishlist_rounds': 19000, 'timeout0_judged': 10000,
-                 'sent_reactions': 16000},
+                 'sent_reactions': 16000, 'relogins': 10000, 'requests_live_across_relogin': 12000,
+                 'requests_created_after_relogin': 20000, 'command_api_requests': 2500},
 }
 SHARD_TIMEOUT = {'quick': 600, 'thorough': 5400}
 EXHAUSTIVE = {'quick': False, 'thorough': False}
@@ -122,7 +141,10 @@ WHAT_FAILS = {
     'result-missing-for-live-request': 'a delivered reply for a registered ticket produced no result event',
     'result-duplicated': 'one delivered reply produced more than one result event',
     'ticket-mismatch': 'the reported result carries another ticket than the request it is reported for',
-    'duplicate-live-ticket': 'two live requests share a ticket',
+    'duplicate-live-ticket': 'two live requests share a ticket (the later one replaces the earlier one in the registry)',
+    'duplicate-live-ticket:mixed-apis': 'a search made through the command API (client.ticket_generator) and one made '
+                                        'through SearchManager (its own generator) get the same ticket while both are '
+                                        'live: both generators start at 2',
     'removal-count': 'a request with a timeout did not get exactly one removal event',
     'removal-early': 'removal event before created+timeout',
     'removal-late': 'removal event after created+timeout',
@@ -864,6 +886,10 @@ class _Run:
             outcome = 'KeyError'      # not judged for a request that is no longer registered
         if outcome == 'ok':
             R['live_rt'] = False
+            for R2 in self.reqs:      # a later request re-using the ticket of an already dead one was removed instead
+                if R2 is not R and R2['live_rt'] and R2['ticket'] == R['ticket'] \
+                        and self.client.searches.requests.get(R2['ticket']) is not R2['obj']:
+                    R2['live_rt'] = False
         self.add('manual-remove', rid=R['rid'], by=by, outcome=outcome, was_registered=was)
 
     def timer_cancel(self, R: dict) -> bool:
@@ -1020,7 +1046,7 @@ def judge(run: _Run, out, res: dict) -> dict:
            'timer_ops_skipped': 0, 'steps_done': run.steps_done, 'steps_skipped': run.steps_skipped,
            'timer_rules_judged': 0, 'errors_attributed': 0, 'followup_not_reported': 0, 'sent_reactions': 0,
            'relogins': run.relogins, 'searches_failed_not_judged': run.searches_failed, 'requests_live_across_relogin': 0,
-           'requests_created_after_relogin': 0, 'command_api_requests': 0}
+           'requests_created_after_relogin': 0, 'command_api_requests': 0, 'removed_through_reused_ticket': 0}
     st = {R['rid']: {'armed': [], 'removed_by': None, 't_dead': None, 'removals': [], 'results': 0, 'touched': False,
                      'tainted': False, 'ops': []} for R in reqs}
     live: set[int] = set()
@@ -1155,6 +1181,15 @@ def judge(run: _Run, out, res: dict) -> dict:
                     live.discard(rid)
                     S['removed_by'] = 'manual'
                     S['t_dead'] = e['t']
+                else:
+                    # remove_request removes by ticket number: a handle of a dead request whose ticket is in use
+                    # again removes the request that now holds the ticket (accepted reading, only counted)
+                    for o in sorted(live):
+                        if reqs[o]['ticket'] == reqs[rid]['ticket']:
+                            live.discard(o)
+                            st[o]['removed_by'] = 'manual'
+                            st[o]['t_dead'] = e['t']
+                            obs['removed_through_reused_ticket'] += 1
             else:
                 obs['removal_keyerror_not_judged'] += 1
                 if rid in live and e['was_registered']:
